@@ -484,6 +484,8 @@ def printed(tree, items, env):
             out.append(("lit", it[1]))
         elif it[0] == "out":
             out.extend(str_pieces(expr_at(tree, it, it[1], env_)))
+        elif it[0] == "other" and isinstance(it[1], str) and it[1].startswith(("macro-begin:", "macro-end:")):
+            continue                # the brackets of an expanded macro call print nothing and control nothing
         else:
             out.append(("ctl", it, dict(env_), guards))
     return out
